@@ -1,0 +1,4 @@
+// Package verifhook provides named instrumentation points for the
+// deterministic-simulation harness. Without the "verif" build tag every
+// function is an empty, inlinable no-op, so shipped behaviour is unchanged.
+package verifhook
